@@ -84,7 +84,10 @@ add("C05", "E2 fq-mc + E3 sock-mc", "model_checking",
     "every transition: exactly-once in-order delivery per stream, no swallowed item, no live stream dropped, closed streams drained. "
     "Socket level: 6 receiving socket types with 1-3 raw peers under every schedule within 2 (thorough 3) deviations over scheduling "
     "order, library yield points and deliveries landing inside pipe reads; per-peer projection of recv results must equal the "
-    "reference decode of what the peer wrote.",
+    "reference decode of what the peer wrote. Families on top: cooperative yields on reads; every peer's last message ends with an "
+    "empty frame; a peer with an announced identity living three lives (clean close / reset between them, observed or not before the "
+    "next life) next to a peer that stays; 17-130 (thorough 520) peers under the default schedules (not exhaustive in n). Every recv "
+    "runs under a waker of its own and is re-polled only when that waker fires.",
     "DESIGN.md 5.5",
     "State merging: tickets are only compared, so rank-normalised; fingerprints are 128-bit hashes of the canonical state. "
     "E3 atomicity: one poll between yield points is atomic. Trusted: parking_lot, BinaryHeap, HashMap, scc.",
@@ -199,7 +202,8 @@ add("C14", "E3 sock-mc (cancellation points) + E2", "model_checking",
     "with ReturnToSender, recv returns the reply to the outstanding request) with the reply arriving before / during / after the "
     "abandoned call. Every recv call runs under a waker of its own that is dead once the call has been dropped (as when the socket "
     "moves to another task); in a second variant the remaining bytes arrive only once the final call is parked, which is re-polled "
-    "only when its own waker fires. REP: every string of polled-and-dropped recv calls while a reply is owed. The fair queue's part "
+    "only when its own waker fires. Burst family: 40-300 (thorough 2100) messages with every recv call polled at most k times and "
+    "dropped if still pending. REP: every string of polled-and-dropped recv calls while a reply is owed. The fair queue's part "
     "is additionally covered by E2's always-enabled spurious Poll (new receiver-waker generation per poll).",
     "DESIGN.md 5.14",
     "The cancellation point of a future is between two polls; each poll is atomic.",
@@ -238,7 +242,8 @@ add("C17", "E4 rt-grid + E3 sock-mc", "model_checking",
     "must be dropped and every library-spawned task completed by quiescence. E4 (real tokio runtime and real TCP v4 / v6 / IPC; OS "
     "schedules not enumerated): the complete grid 9 types x 3 transports x 7 history prefixes (incl. a peer that stopped reading with "
     "data stuck on the socket's side) x {close, drop} = 366 cases with "
-    "monotone conditions awaited up to 5 s: close() returns, connects refused (at once after close() returns), IPC file gone, endpoint bindable "
+    "monotone conditions awaited up to 5 s (plus, in a child process with a lowered descriptor limit, 12 cases after an accept() that "
+    "failed with EMFILE): close() returns, connects refused (at once after close() returns), IPC file gone, endpoint bindable "
     "again, every established peer and every client parked in the handshake sees EOF, close() reports nothing, alive-task count back "
     "to baseline.",
     "DESIGN.md 5.17",
